@@ -26,7 +26,9 @@ EXPLANATION = (
     ' '
     'R-C16.2 now recognises the comprehension, filter(), guarded-append and removal-from-a-copy forms of the installable-models filter; R-C16.6 no for loop of the package grows or shrinks the container it iterates.'
     ' '
-    'R-C16.7 queue_evolve_all_apps queues every installed app (no path around the queueing call inside the loop).')
+    'R-C16.7 queue_evolve_all_apps queues every installed app (no path around the queueing call inside the loop).'
+    ' '
+    'R-C16.8 the per-task loop of _build_batches has no break.')
 NOT_DECIDED = 'Behaviour under arbitrary routers and model splits.'
 TECHNIQUE = ('CFG must-pass-through with short-circuit expansion '
              '(is_mutable), control dependence of membership on the router '
@@ -604,7 +606,53 @@ def r7_every_installed_app_is_queued(ctx):
     ctx.floor('queueing calls in queue_evolve_all_apps', n, 1)
 
 
+def r8_every_task_of_a_batch_is_built(ctx):
+    """_build_batches() generates the executed SQL and updates the stored
+    signature task by task.  The per-task loop must visit every task of the
+    batch: a `break` (instead of `continue`) at the "app is new on this
+    database" guard drops every app queued after a newly installed one -
+    their tables are not altered, their signature is not updated, and their
+    evolutions are recorded as applied all the same."""
+    ctx.rule('R-C16.8')
+    p = ctx.program
+    f = p.func('evolve.evolve_app_task', 'EvolveAppTask._build_batches')
+    n = 0
+    for loop in walk_no_nested(f.node):
+        if not (isinstance(loop, ast.For) and
+                'task_evolutions' in unparse(loop.iter)):
+            continue
+        n += 1
+
+        def breaks(stmts):
+            for st in stmts:
+                if isinstance(st, ast.Break):
+                    yield st
+                elif isinstance(st, (ast.For, ast.While, ast.FunctionDef)):
+                    continue
+                else:
+                    for blk in ('body', 'orelse', 'finalbody'):
+                        b = getattr(st, blk, None)
+                        if isinstance(b, list) and b and \
+                                isinstance(b[0], ast.stmt):
+                            for y in breaks(b):
+                                yield y
+                    for h in getattr(st, 'handlers', []):
+                        for y in breaks(h.body):
+                            yield y
+        bs = list(breaks(loop.body))
+        if bs:
+            ctx.finding(f, bs[0], '_build_batches leaves the loop over the '
+                        'tasks of a batch with `break`: the tasks after '
+                        'this one get no SQL and no signature update on '
+                        'this database, yet their evolutions are recorded',
+                        key='task-loop-left-early')
+        else:
+            ctx.ok(f, 'every task of a batch is visited', loop)
+    ctx.floor('per-task loops in _build_batches', n, 1)
+
+
 def run(ctx):
+    r8_every_task_of_a_batch_is_built(ctx)
     r7_every_installed_app_is_queued(ctx)
     r6_no_mutation_of_iterated_container(ctx)
     r5_pending_filter_exemptions(ctx)
